@@ -1,11 +1,462 @@
-(* Proofs_C46.v *)
+(* Proofs_C46.v — lemmas and proofs; the property theorems are re-exported in Prop_C46.v. *)
 From Coq Require Import List NArith ZArith Bool Lia.
 Import ListNotations.
 From Verif Require Import Base.Val C46.Model_C46 C46.Spec_C46.
 
+(* ------------------------------------------------------------------ basic list facts *)
 Lemma memN_In x l : memN x l = true <-> In x l.
 Proof.
   unfold memN. rewrite existsb_exists. split.
   - intros [y [Hy He]]. apply N.eqb_eq in He. subst. exact Hy.
   - intro H. exists x. split; [exact H | apply N.eqb_refl].
 Qed.
+
+Lemma memN_false x l : memN x l = false <-> ~ In x l.
+Proof.
+  rewrite <- memN_In. destruct (memN x l); split; intro H; try reflexivity; try discriminate.
+  exfalso. apply H. reflexivity.
+Qed.
+
+Lemma is_nil_true {A} (l : list A) : is_nil l = true <-> l = [].
+Proof. destruct l; cbn; split; intro H; congruence. Qed.
+
+Lemma is_nil_false {A} (l : list A) : is_nil l = false <-> l <> [].
+Proof. destruct l; cbn; split; intro H; congruence. Qed.
+
+Lemma insert_In f g l : In g (insert f l) <-> g = f \/ In g l.
+Proof.
+  induction l as [|h r IH]; cbn.
+  - split; intros [H|H]; auto; contradiction.
+  - destruct (f_id f <=? f_id h)%N; cbn.
+    + split; intros [H|H]; subst; auto.
+    + rewrite IH. split; intros [H|[H|H]]; subst; auto.
+Qed.
+
+Lemma sort_files_In g l : In g (sort_files l) <-> In g l.
+Proof.
+  induction l as [|h r IH]; cbn; [tauto|].
+  rewrite insert_In, IH. split; intros [H|H]; auto.
+Qed.
+
+Lemma files_of_In f ps : In f (files_of ps) <-> exists p, In p ps /\ In f (p_files p).
+Proof. unfold files_of. apply in_flat_map. Qed.
+
+Lemma concat_In (f : file) ls : In f (concat ls) <-> exists l, In l ls /\ In f l.
+Proof.
+  rewrite in_concat. split; intros [l [H1 H2]]; exists l; tauto.
+Qed.
+
+Lemma matches_true ps p : matches ps p = true <-> exists x, In x ps /\ In x (p_pats p).
+Proof.
+  unfold matches. rewrite existsb_exists. split; intros [x [H1 H2]]; exists x; split; auto;
+    apply memN_In; exact H2.
+Qed.
+
+(* ------------------------------------------------------------------ what is removed *)
+Section WithSel.
+  Variable scan : opts -> bool.
+  Variable selected : file -> bool.
+
+  Lemma removed_In o w f :
+    In f (removed scan selected o w) <->
+    In f (w_all w) /\ memN (f_id f) (target_files selected o w) = true
+    /\ memN (f_id f) (saving scan o w) = false /\ passes o f = true.
+  Proof.
+    unfold removed. rewrite !filter_In, sort_files_In, andb_true_iff, negb_true_iff. tauto.
+  Qed.
+
+  Lemma passes_spec o f : passes o f = true <-> passes_filters o f.
+  Proof.
+    unfold passes, passes_filters. rewrite andb_true_iff.
+    destruct (o_mod o) as [t|], (o_size o) as [s|]; rewrite ?Z.ltb_lt; split.
+    all: try (intros [H1 H2]; split; intros x Hx; try discriminate; injection Hx as <-; assumption).
+    all: try (intros [H1 H2]; split; try reflexivity; try (apply H1; reflexivity); try (apply H2; reflexivity)).
+  Qed.
+
+  Lemma has_restrict_true o : has_restrict o = true <-> targets_in_force o.
+  Proof using.
+    unfold has_restrict, targets_in_force. rewrite orb_true_iff, !negb_true_iff, !is_nil_false.
+    split; intros [H|H]; [right|left|right|left]; exact H.
+  Qed.
+
+  Lemma target_files_In o w x :
+    In x (target_files selected o w) ->
+    In x (all_ids w) /\
+    (targets_in_force o -> selected x = true /\ exists p, In p (w_repo w) /\ restrict_match o p = true).
+  Proof using.
+    unfold target_files. destruct (has_restrict o) eqn:Hr.
+    - destruct (filter (restrict_match o) (w_repo w)) as [|p r] eqn:Hf; [contradiction|].
+      rewrite filter_In. intros [H1 H2]. split; [exact H1|]. intros _. split; [exact H2|].
+      exists p. apply filter_In. rewrite Hf. left. reflexivity.
+    - intro H. split; [exact H|]. intro Ht. apply has_restrict_true in Ht. congruence.
+  Qed.
+
+  (* clause 0: only DISTDIR files that the targets select and the filters pass *)
+  Theorem removed_subset_targets_and_filters_proof o w f :
+    In f (removed scan selected o w) ->
+    In f (w_all w) /\ passes_filters o f /\
+    (targets_in_force o ->
+       selected (f_id f) = true /\ exists p, In p (w_repo w) /\ restrict_match o p = true).
+  Proof.
+    rewrite removed_In. intros [Ha [Ht [_ Hp]]]. split; [exact Ha|]. split; [apply passes_spec; exact Hp|].
+    apply memN_In in Ht. pose proof (target_files_In o w _ Ht) as Hq. tauto.
+  Qed.
+
+  Lemma saved_not_removed o w f :
+    In (f_id f) (saving scan o w) -> ~ In f (removed scan selected o w).
+  Proof.
+    intros Hs Hr. apply removed_In in Hr as [_ [_ [Hn _]]]. apply memN_false in Hn. exact (Hn Hs).
+  Qed.
+
+  (* clauses that do not depend on when the repository is scanned *)
+  Theorem never_removes_installed_proof o w f :
+    needed_installed o w (f_id f) -> ~ In f (removed scan selected o w).
+  Proof.
+    intros [Ho [l [Hl Hf]]]. apply saved_not_removed. unfold saving, installed_dist. rewrite Ho.
+    apply in_or_app. left. apply concat_In. exists l. tauto.
+  Qed.
+
+  Theorem never_removes_excluded_proof o w f :
+    needed_excluded o w (f_id f) -> ~ In f (removed scan selected o w).
+  Proof.
+    intros [p [x [Hp [Hx [Hxp Hf]]]]]. apply saved_not_removed. unfold saving, excludes_dist.
+    destruct (o_excl o) as [|e es] eqn:He; [contradiction|]. cbn [is_nil].
+    apply in_or_app. right. apply in_or_app. right. apply in_or_app. left.
+    apply files_of_In. exists p. split; [|exact Hf]. apply filter_In. split; [exact Hp|].
+    apply matches_true. exists x. tauto.
+  Qed.
+
+  (* clauses that need the scan of the whole repository *)
+  Lemma never_removes_existing_gen o w f :
+    (o_exists o = true -> scan o = true) ->
+    needed_existing o w (f_id f) -> ~ In f (removed scan selected o w).
+  Proof.
+    intros Hsc [Ho [p [Hp Hf]]]. apply saved_not_removed. unfold saving, exists_dist.
+    rewrite (Hsc Ho). apply in_or_app. right. apply in_or_app. left. apply in_or_app. left.
+    apply files_of_In. exists p. tauto.
+  Qed.
+
+  Lemma never_removes_fetch_restricted_gen o w f :
+    (o_fetch o = true -> scan o = true) ->
+    needed_fetch_restricted o w (f_id f) -> ~ In f (removed scan selected o w).
+  Proof.
+    intros Hsc [Ho [p [Hp [Hfr Hf]]]]. apply saved_not_removed. unfold saving, restricted_dist.
+    rewrite (Hsc Ho). apply in_or_app. right. apply in_or_app. right. apply in_or_app. right.
+    apply files_of_In. exists p. split; [|exact Hf]. apply filter_In. tauto.
+  Qed.
+
+  Lemma never_needed_gen o w f :
+    (o_exists o = true -> scan o = true) -> (o_fetch o = true -> scan o = true) ->
+    needed o w (f_id f) -> ~ In f (removed scan selected o w).
+  Proof.
+    intros H1 H2 [H|[H|[H|H]]].
+    - apply never_removes_installed_proof; exact H.
+    - apply never_removes_existing_gen; assumption.
+    - apply never_removes_fetch_restricted_gen; assumption.
+    - apply never_removes_excluded_proof; exact H.
+  Qed.
+End WithSel.
+
+Lemma scan_fixed_exists o : o_exists o = true -> scan_fixed o = true.
+Proof. unfold scan_fixed. intros ->. apply orb_true_r. Qed.
+Lemma scan_fixed_fetch o : o_fetch o = true -> scan_fixed o = true.
+Proof. unfold scan_fixed. intros ->. reflexivity. Qed.
+Lemma scan_old_fetch o : o_fetch o = true -> scan_old o = true.
+Proof. unfold scan_old. intros ->. reflexivity. Qed.
+
+Theorem never_removes_existing_proof selected o w f :
+  needed_existing o w (f_id f) -> ~ In f (removed scan_fixed selected o w).
+Proof. apply never_removes_existing_gen. apply scan_fixed_exists. Qed.
+
+Theorem never_removes_fetch_restricted_proof selected o w f :
+  needed_fetch_restricted o w (f_id f) -> ~ In f (removed scan_fixed selected o w).
+Proof. apply never_removes_fetch_restricted_gen. apply scan_fixed_fetch. Qed.
+
+(* the four clauses together, for the repaired code *)
+Theorem never_needed_proof selected o w f :
+  needed o w (f_id f) -> ~ In f (removed scan_fixed selected o w).
+Proof. apply never_needed_gen; [apply scan_fixed_exists | apply scan_fixed_fetch]. Qed.
+
+(* ---- the code before the repair: the full statement is false, and where it held *)
+Definition C46_full_statement (scan : opts -> bool) : Prop :=
+  forall selected o w f, needed o w (f_id f) -> ~ In f (removed scan selected o w).
+
+(* pclean dist -E app/foo; repository: foo-1.0 {1: foo-1.0.tar.gz}, foo-bar-1.0 {2: foo-bar-1.0.tar.gz};
+   pattern 1 = "app/foo" matches only foo; the regex (foo)(\W\w+)+… selects both names *)
+Definition wit_o : opts :=
+  {| o_inst := false; o_exists := true; o_fetch := false; o_pretend := false;
+     o_excl := []; o_targets := [1%N]; o_mod := None; o_size := None |}.
+Definition wit_w : world :=
+  {| w_all := [ {| f_id := 1%N; f_age := 0%Z; f_size := 1%Z |}; {| f_id := 2%N; f_age := 0%Z; f_size := 1%Z |} ];
+     w_repo := [ {| p_files := [1%N]; p_fetch := false; p_pats := [1%N] |};
+                 {| p_files := [2%N]; p_fetch := false; p_pats := [] |} ];
+     w_inst := [] |}.
+Definition wit_f : finfo := {| f_id := 2%N; f_age := 0%Z; f_size := 1%Z |}.
+
+Theorem old_exists_clause_refuted_proof : ~ C46_full_statement scan_old.
+Proof.
+  intro H. apply (H (fun _ => true) wit_o wit_w wit_f).
+  - right. left. split; [reflexivity|].
+    exists {| p_files := [2%N]; p_fetch := false; p_pats := [] |}. split; [right; left; reflexivity | left; reflexivity].
+  - vm_compute. left. reflexivity.
+Qed.
+
+(* the same input is safe after the repair *)
+Example repaired_keeps_witness : removed scan_fixed (fun _ => true) wit_o wit_w = [].
+Proof. reflexivity. Qed.
+
+(* known class of the old behaviour: -E together with targets/exclusions and without -f *)
+Definition old_known_class (o : opts) : bool := o_exists o && has_restrict o && negb (o_fetch o).
+
+Theorem old_never_needed_partial_proof selected o w f :
+  old_known_class o = false ->
+  needed o w (f_id f) -> ~ In f (removed scan_old selected o w).
+Proof.
+  intro Hk. apply never_needed_gen; [|apply scan_old_fetch].
+  intro He. unfold old_known_class in Hk. unfold scan_old. rewrite He in *. cbn in *.
+  destruct (has_restrict o), (o_fetch o); cbn in *; congruence.
+Qed.
+
+(* ------------------------------------------------------------------ exactness *)
+(* everything the options protect: the needed files, plus (documented over-approximation of
+   the code) every repository distfile whenever -f is given *)
+Definition protected (o : opts) (w : world) (f : file) : Prop :=
+  needed o w f \/ (o_fetch o = true /\ exists p, In p (w_repo w) /\ In f (p_files p)).
+
+Definition target_selected (selected : file -> bool) (o : opts) (w : world) (f : file) : Prop :=
+  targets_in_force o ->
+  selected f = true /\ exists p, In p (w_repo w) /\ restrict_match o p = true.
+
+Lemma saving_fixed_In o w x : In x (saving scan_fixed o w) <-> protected o w x.
+Proof.
+  unfold saving, protected, needed, needed_installed, needed_existing, needed_fetch_restricted,
+    needed_excluded, installed_dist, exists_dist, restricted_dist, excludes_dist, scan_fixed.
+  rewrite !in_app_iff. split.
+  - intros [H|[[H|H]|[H|H]]].
+    + destruct (o_inst o); [|contradiction]. apply concat_In in H. left. left. tauto.
+    + destruct (o_fetch o) eqn:Ef, (o_exists o) eqn:Ee; cbn in H; try contradiction;
+        apply files_of_In in H.
+      * left. right. left. tauto.
+      * right. tauto.
+      * left. right. left. tauto.
+    + destruct (has_restrict o && o_exists o) eqn:E; [|contradiction].
+      apply andb_true_iff in E as [_ E]. apply files_of_In in H as [p [Hp Hf]].
+      apply filter_In in Hp as [Hp _]. left. right. left. split; [exact E|]. exists p. tauto.
+    + destruct (o_excl o) as [|e es] eqn:He; [contradiction|]. cbn [is_nil] in H.
+      apply files_of_In in H as [p [Hp Hf]]. apply filter_In in Hp as [Hp Hm].
+      apply matches_true in Hm as [y [Hy1 Hy2]]. left. right. right. right. exists p, y. tauto.
+    + destruct (o_fetch o || o_exists o) eqn:E; [|contradiction].
+      apply files_of_In in H as [p [Hp Hf]]. apply filter_In in Hp as [Hp Hfr].
+      destruct (o_fetch o) eqn:Ef.
+      * right. split; [reflexivity|]. exists p. tauto.
+      * cbn in E. left. right. left. split; [exact E|]. exists p. tauto.
+  - intros [[H|[H|[H|H]]]|H].
+    + destruct H as [Ho [l Hl]]. rewrite Ho. left. apply concat_In. exists l. exact Hl.
+    + destruct H as [Ho [p Hp]]. rewrite Ho, orb_true_r. right. left. left. apply files_of_In. exists p. exact Hp.
+    + destruct H as [Ho [p [Hp [Hfr Hf]]]]. rewrite Ho. cbn. right. left. left. apply files_of_In. exists p. tauto.
+    + destruct H as [p [y [Hp [Hy1 [Hy2 Hf]]]]]. right. right. left.
+      destruct (o_excl o) as [|e es] eqn:He; [contradiction|]. cbn [is_nil].
+      apply files_of_In. exists p. split; [|exact Hf]. apply filter_In. split; [exact Hp|].
+      apply matches_true. exists y. tauto.
+    + destruct H as [Ho [p Hp]]. rewrite Ho. cbn. right. left. left. apply files_of_In. exists p. exact Hp.
+Qed.
+
+Lemma target_files_iff selected o w x :
+  In x (target_files selected o w) <-> In x (all_ids w) /\ target_selected selected o w x.
+Proof.
+  split.
+  - intro H. exact (target_files_In selected o w x H).
+  - intros [Ha Ht]. unfold target_files, target_selected in *.
+    destruct (has_restrict o) eqn:Hr; [|exact Ha].
+    apply has_restrict_true in Hr. destruct (Ht Hr) as [Hs [p [Hp Hm]]].
+    destruct (filter (restrict_match o) (w_repo w)) as [|q r] eqn:Hf.
+    + assert (Hin : In p (filter (restrict_match o) (w_repo w))) by (apply filter_In; tauto).
+      rewrite Hf in Hin. contradiction.
+    + apply filter_In. tauto.
+Qed.
+
+(* the repaired code removes EXACTLY the unprotected selected files that pass the filters *)
+Theorem removed_exact_proof selected o w f :
+  In f (removed scan_fixed selected o w) <->
+  In f (w_all w) /\ passes_filters o f /\ target_selected selected o w (f_id f) /\ ~ protected o w (f_id f).
+Proof.
+  rewrite removed_In, memN_In, memN_false, target_files_iff, saving_fixed_In, passes_spec.
+  split.
+  - intros [Ha [[_ Ht] [Hn Hp]]]. tauto.
+  - intros [Ha [Hp [Ht Hn]]]. split; [exact Ha|]. split; [|tauto]. split; [|exact Ht].
+    unfold all_ids. apply in_map. exact Ha.
+Qed.
+
+(* non-vacuity: a world in which something is removed and something needed is kept *)
+Example something_removed :
+  map f_id (removed scan_fixed (fun _ => true)
+              {| o_inst := true; o_exists := false; o_fetch := false; o_pretend := false;
+                 o_excl := []; o_targets := []; o_mod := Some 86400%Z; o_size := None |}
+              {| w_all := [ {| f_id := 3%N; f_age := 90000%Z; f_size := 1%Z |};
+                            {| f_id := 1%N; f_age := 90000%Z; f_size := 1%Z |};
+                            {| f_id := 2%N; f_age := 100%Z; f_size := 1%Z |} ];
+                 w_repo := []; w_inst := [[3%N]] |}) = [1%N].
+Proof. reflexivity. Qed.
+
+
+(* ------------------------------------------------------------------ the option glue *)
+(* parse_qty recognises exactly DIGITS UNIT [newline] and computes value * unit *)
+Lemma digits_spec s : forall acc any v rest,
+  digits s acc any = Some (v, rest) ->
+  exists ds, s = ds ++ rest /\ Forall (fun c => is_digit c = true) ds
+    /\ (any = false -> ds <> [])
+    /\ v = fold_left (fun a c => a * 10 + Z.of_N (c - 48))%Z ds acc
+    /\ match rest with c :: _ => is_digit c = false | [] => True end.
+Proof.
+  induction s as [|c r IH]; intros acc any v rest H; cbn in H.
+  - destruct any; [|discriminate]. injection H as <- <-. exists []. cbn.
+    repeat split; auto. intro; discriminate.
+  - destruct (is_digit c) eqn:Ed.
+    + apply IH in H as [ds [E1 [E2 [_ [E4 E5]]]]]. exists (c :: ds). cbn. subst r.
+      repeat split; auto. intros _; discriminate.
+    + destruct any; [|discriminate]. injection H as <- <-. exists []. cbn.
+      repeat split; auto. intro; discriminate.
+Qed.
+
+Lemma strip_nl_spec s : s = strip_nl s \/ s = strip_nl s ++ [10%N].
+Proof.
+  unfold strip_nl. destruct (rev s) as [|c r] eqn:E; [left; reflexivity|].
+  assert (Hs : s = rev r ++ [c]) by (rewrite <- (rev_involutive s), E; reflexivity).
+  destruct c as [|p]; [left; reflexivity|].
+  destruct p as [p|p|]; try (left; reflexivity).
+  destruct p as [p|p|]; try (left; reflexivity).
+  destruct p as [p|p|]; try (left; reflexivity).
+  destruct p as [p|p|]; try (left; reflexivity).
+  right. exact Hs.
+Qed.
+
+Theorem parse_qty_sound_proof tbl s z : parse_qty tbl s = Some z -> qty_denotes tbl s z.
+Proof.
+  unfold parse_qty, qty_denotes. destruct (digits s 0 false) as [[v rest]|] eqn:Ed; [|discriminate].
+  destruct (lookup (strip_nl rest) tbl) as [u|] eqn:El; [|discriminate]. intro H. injection H as <-.
+  apply digits_spec in Ed as [ds [E1 [E2 [E3 [E4 _]]]]].
+  exists ds, (strip_nl rest), rest, u. repeat split; auto.
+  - destruct (strip_nl_spec rest) as [H|H]; [left|right]; exact H.
+  - subst v. reflexivity.
+Qed.
+
+Example parse_time_1y : parse_qty time_units [49;121]%N = Some 31536000%Z.      (* "1y" *)
+Proof. reflexivity. Qed.
+Example parse_time_10min : parse_qty time_units [49;48;109;105;110]%N = Some 600%Z.   (* "10min" *)
+Proof. reflexivity. Qed.
+Example parse_time_2m : parse_qty time_units [50;109]%N = Some 5184000%Z.       (* "2m" = 60 days *)
+Proof. reflexivity. Qed.
+Example parse_size_100M : parse_qty size_units [49;48;48;77]%N = Some 104857600%Z.    (* "100M" *)
+Proof. reflexivity. Qed.
+Example parse_size_bad : parse_qty size_units [49;48;107]%N = None.               (* "10k" *)
+Proof. reflexivity. Qed.
+
+(* the parser loop computes the declarative reading of the command line *)
+Definition Rq (tbl : list (str * Z)) (m : option str) (z : option Z) : Prop :=
+  match m with None => z = None | Some s => z = parse_qty tbl s /\ z <> None end.
+
+Lemma parse_toks_inv ts : forall o0 o m0 s0,
+  parse_toks ts o0 = Some o ->
+  Rq time_units m0 (o_mod o0) -> Rq size_units s0 (o_size o0) ->
+  o_inst o = o_inst o0 || flag_given is_inst ts
+  /\ o_exists o = o_exists o0 || flag_given is_exists ts
+  /\ o_fetch o = o_fetch o0 || flag_given is_fetch ts
+  /\ o_pretend o = o_pretend o0 || flag_given is_pretend ts
+  /\ o_excl o = fold_left (fun acc t => match t with TExcl ps => ps | _ => acc end) ts (o_excl o0)
+  /\ o_targets o = o_targets o0 ++ all_targets ts
+  /\ Rq time_units (fold_left (fun acc t => match t with TMod s => Some s | _ => acc end) ts m0) (o_mod o)
+  /\ Rq size_units (fold_left (fun acc t => match t with TSize s => Some s | _ => acc end) ts s0) (o_size o).
+Proof.
+  unfold flag_given.
+  induction ts as [|t r IH]; intros o0 o m0 s0 H Rm Rs.
+  - cbn in H. injection H as <-. cbn. rewrite !orb_false_r, app_nil_r. repeat split; auto.
+  - destruct t; cbn [parse_toks] in H;
+      try (destruct (parse_qty time_units s) as [z|] eqn:Eq; [|discriminate]);
+      try (destruct (parse_qty size_units s) as [z|] eqn:Eq; [|discriminate]).
+    all: match type of H with parse_toks _ ?o' = Some ?oo =>
+           first [ match goal with Eq : parse_qty time_units ?s' = Some _ |- _ => specialize (IH o' oo (Some s') s0 H) end
+                 | match goal with Eq : parse_qty size_units ?s' = Some _ |- _ => specialize (IH o' oo m0 (Some s') H) end
+                 | specialize (IH o' oo m0 s0 H) ]
+         end; cbn in IH.
+    all: try (match goal with Eq : parse_qty time_units ?s' = Some ?z' |- _ =>
+                assert (Hm : Rq time_units (Some s') (Some z')) by (split; [symmetry; exact Eq | discriminate]) end).
+    all: try (match goal with Eq : parse_qty size_units ?s' = Some ?z' |- _ =>
+                assert (Hs : Rq size_units (Some s') (Some z')) by (split; [symmetry; exact Eq | discriminate]) end).
+    all: first [ specialize (IH Hm Rs) | specialize (IH Rm Hs) | specialize (IH Rm Rs) ].
+    all: destruct IH as [I1 [I2 [I3 [I4 [I5 [I6 [I7 I8]]]]]]].
+    all: cbn; rewrite I1, I2, I3, I4, I5, I6, ?orb_true_r, ?orb_false_r, <- ?app_assoc; cbn.
+    all: repeat split; auto.
+    all: try (destruct (o_inst o0); reflexivity); try (destruct (o_exists o0); reflexivity);
+         try (destruct (o_fetch o0); reflexivity); try (destruct (o_pretend o0); reflexivity).
+Qed.
+
+Theorem parse_argv_spec_proof ts o : parse_argv ts = POk o -> spec_opts ts = Some o.
+Proof.
+  unfold parse_argv. destruct (parse_toks ts opts0) as [o'|] eqn:E; [|discriminate].
+  destruct (existsb bad_pat (o_excl o')); [discriminate|].
+  destruct (existsb bad_pat (o_targets o')); [discriminate|]. intro H. injection H as ->.
+  apply (parse_toks_inv ts opts0 o None None) in E; [|reflexivity|reflexivity].
+  destruct E as [I1 [I2 [I3 [I4 [I5 [I6 [I7 I8]]]]]]]. cbn in *.
+  unfold spec_opts, last_mod, last_size, last_excl.
+  destruct (fold_left _ ts None) as [sm|] eqn:Em in I7 |- *;
+  destruct (fold_left (fun acc t => match t with TSize s => Some s | _ => acc end) ts None) as [ss|] eqn:Es in I8 |- *;
+  cbn in I7, I8.
+  all: repeat match goal with H : _ /\ _ |- _ => destruct H end.
+  all: repeat match goal with
+         | H : o_mod _ = parse_qty _ _ |- _ => rewrite <- H
+         | H : o_size _ = parse_qty _ _ |- _ => rewrite <- H end.
+  all: match goal with |- _ = Some ?oo => destruct oo as [a b c d e f g h] end; cbn in *; subst.
+  all: repeat match goal with |- context [parse_qty ?t ?s] => destruct (parse_qty t s) eqn:? end.
+  all: try congruence; reflexivity.
+Qed.
+
+(* ------------------------------------------------------------------ the whole run *)
+(* command line to files left: whatever the options, a needed DISTDIR file is still there
+   afterwards and is never announced for removal *)
+Theorem run_never_removes_needed_proof i o kept printed :
+  parse_argv (i_argv i) = POk o ->
+  outcome scan_fixed i = Some (kept, printed) ->
+  forall f, In f (w_all (i_world i)) -> needed o (i_world i) (f_id f) ->
+            In (f_id f) kept /\ ~ In (f_id f) printed.
+Proof.
+  unfold outcome. intros -> H f Hf Hn.
+  set (sel := fun x => memN x (i_sel i)) in *.
+  assert (Hrm : ~ In (f_id f) (map f_id (removed scan_fixed sel o (i_world i)))).
+  { intro Hin. apply in_map_iff in Hin as [g [Hg1 Hg2]].
+    apply (never_needed_proof sel o (i_world i) g); [rewrite Hg1; exact Hn | exact Hg2]. }
+  assert (Hev : In (f_id f) (map f_id (sort_files (w_all (i_world i))))).
+  { apply in_map. apply sort_files_In. exact Hf. }
+  destruct (i_tty i && negb (o_pretend o)); injection H as <- <-.
+  - split; [|intros []]. apply filter_In. split; [exact Hev|].
+    apply negb_true_iff. apply memN_false. exact Hrm.
+  - split; [exact Hev | exact Hrm].
+Qed.
+
+(* and nothing disappears or is announced except removable files; errors remove nothing *)
+Theorem run_only_removes_selected_proof i o kept printed :
+  parse_argv (i_argv i) = POk o ->
+  outcome scan_fixed i = Some (kept, printed) ->
+  forall x, (In x (map f_id (w_all (i_world i))) /\ ~ In x kept) \/ In x printed ->
+  exists f, f_id f = x /\ In f (removed scan_fixed (fun y => memN y (i_sel i)) o (i_world i)).
+Proof.
+  unfold outcome. intros -> H x Hx.
+  set (sel := fun y => memN y (i_sel i)) in *.
+  destruct (i_tty i && negb (o_pretend o)); injection H as <- <-.
+  - destruct Hx as [[Ha Hk]|[]].
+    destruct (memN x (map f_id (removed scan_fixed sel o (i_world i)))) eqn:Em.
+    + apply memN_In, in_map_iff in Em. exact Em.
+    + exfalso. apply Hk. apply filter_In. split.
+      * apply in_map_iff in Ha as [g [Hg1 Hg2]]. apply in_map_iff. exists g.
+        split; [exact Hg1 | apply sort_files_In; exact Hg2].
+      * cbv beta. apply negb_true_iff. exact Em.
+  - destruct Hx as [[Ha Hk]|Hp].
+    + exfalso. apply Hk. apply in_map_iff in Ha as [g [Hg1 Hg2]]. apply in_map_iff. exists g.
+      split; [exact Hg1 | apply sort_files_In; exact Hg2].
+    + apply in_map_iff in Hp. exact Hp.
+Qed.
+
+Theorem run_error_removes_nothing_proof i :
+  outcome scan_fixed i = None ->
+  run i = VL [match parse_argv (i_argv i) with PCrash => crash_error | _ => usage_error end;
+              enc_ids (everything i); enc_ids []].
+Proof. unfold run. intros ->. reflexivity. Qed.
